@@ -308,11 +308,19 @@ pub fn guided_interps(t: &TaskCtx, r: &mut Rng, st: &mut Stats, max: usize) -> V
     // one-atom perturbations of the public parts
     let pool = [Value::Int(0), Value::Int(1), Value::Int(2), Value::Sym("a".into())];
     let base: Vec<AtomSet> = publics.iter().cloned().collect();
+    // only output predicates that occur in the task: a declared output that neither side mentions
+    // does not occur in any emitted problem and is outside the vocabulary of the interpretations
+    let mut mentioned: Vec<(String, usize)> = program_preds(&t.parsed.right);
+    match &t.parsed.left {
+        Either::Left(lp) => mentioned.extend(program_preds(lp)),
+        Either::Right(s) => mentioned.extend(s.predicates().into_iter().map(|p| (p.symbol, p.arity))),
+    }
+    let perturbable: Vec<&(String, usize)> = t.outputs.iter().filter(|o| mentioned.contains(o)).collect();
     for b in base.iter().take(3) {
-        if t.outputs.is_empty() {
+        if perturbable.is_empty() {
             break;
         }
-        let (p, n) = &t.outputs[r.upto(t.outputs.len())];
+        let (p, n) = perturbable[r.upto(perturbable.len())];
         let tp: Vec<Value> = (0..*n).map(|_| pool[r.upto(pool.len())].clone()).collect();
         let mut c = b.clone();
         if !c.remove(&(p.clone(), tp.clone())) {
